@@ -149,7 +149,7 @@ def run_case(case):
 
     def ev(form, orig, fn, semantic):
         e = {"form": form, "orig": orig, "back": dict(C.EMPTY), "exc": "none", "exact": True, "eq": True, "ok": True, "hints": [], "names": [], "g": 0,
-             "groups": ["serial"], "_strings": None, "infeas": dict(H.NONE), "rounded": bool(d["wild"])}
+             "groups": ["serial"], "_strings": None, "eqok": True, "bits": False, "infeas": dict(H.NONE), "rounded": bool(d["wild"])}
         try:
             back, extra = fn()
             e["back"] = C.pcontract(back)
@@ -165,6 +165,7 @@ def run_case(case):
             evs.append(e)
             return
         e["ok"] = C.contract_ok(e["back"]) and C.contract_ok(orig)
+        e["eqok"] = all(r.get("_eqok", True) for c_ in (e["back"], orig) for r in c_["a"] + c_["g"])
         e["names"] = sorted(C.cvars(orig) | C.cvars(e["back"]))
         if semantic and e["ok"]:
             cls = C.equiv(e["back"], orig)
@@ -191,7 +192,7 @@ def run_case(case):
                 os.remove(path)
             if len(cs) != 1 or names != ["c"]:
                 raise RuntimeError("file round trip returned %d contracts" % len(cs))
-            return cs[0], {}
+            return cs[0], {"bits": bool(machine_rep) and same_numbers(c0, cs[0])}
         return f
 
     ev("machine-dict", p0, machine, False)
